@@ -147,7 +147,7 @@ fn panic_kind(msg: &str) -> String {
 
 /// Small fixed contracts. Every one has a `pragma solidity` line and no free function (detectors that abort
 /// without them are other properties' business). Several share patterns so that merging matters.
-const SOURCES: [&str; 10] = [
+const SOURCES: [&str; 12] = [
     // 0: FloatingPragma, OptimalComparison
     "// SPDX-License-Identifier: MIT\npragma solidity ^0.8.0;\n\ncontract A0 {\n    uint256 public total;\n\n    function cmp(uint256 x, uint256 y) public view returns (bool) {\n        return x >= y;\n    }\n}\n",
     // 1: UnsafeERC20Operation, PrivateFuncLeadingUnderscore (public function with a leading underscore)
@@ -168,6 +168,9 @@ const SOURCES: [&str; 10] = [
     "pragma solidity ^0.8.0;\n\nstruct Position {\n    uint128 a;\n    uint128 b;\n}\n\nenum Side { Long, Short }\n\nuint256 constant MAX = 10;\n\nfunction atLeast(uint256 x, uint256 y) pure returns (bool) {\n    return x >= y;\n}\n",
     // 9: white space and line breaks only (parses to an empty source unit: no finding, and nothing of it may leak into the next file)
     "\n\n   \n\t\n\n\n",
+    // 10 and 11: two sources of EXACTLY the same byte length with different findings (OptimalComparison / PayableFunction lines differ)
+    "pragma solidity 0.8.17;\n\ncontract E {\n    function f(uint256 x, uint256 y) public pure returns (bool) {\n        return x >= y;\n    }\n}\n",
+    "pragma solidity 0.8.17;\n\ncontract E {\n\n    function f(uint256 x, uint256 y) public pure returns (bool) {\n        return x > y;\n    }\n}\n",
 ];
 
 #[derive(Clone, Copy, PartialEq, Eq, PartialOrd, Ord, Hash, Debug)]
@@ -1081,7 +1084,8 @@ fn pools(mode: Mode, ranks: &HashMap<String, usize>) -> Pools {
         o
     };
     let (e, i): (Vec<&str>, Vec<&str>) = match mode {
-        Mode::C03 => (PLAIN_ELIGIBLE.to_vec(), PLAIN_INELIGIBLE.to_vec()),
+        // the union contract is about EVERY eligible file: corner-case eligible names (".sol", "t.sol", "a.t.sol.sol", ...) too
+        Mode::C03 => (PLAIN_ELIGIBLE.iter().chain(CORNER_ELIGIBLE.iter()).cloned().collect(), PLAIN_INELIGIBLE.to_vec()),
         Mode::C16 => (PLAIN_ELIGIBLE[..9].iter().chain(CORNER_ELIGIBLE.iter()).cloned().collect(), INELIGIBLE.to_vec()),
     };
     Pools { by_class: [mk(DIR_NAMES.to_vec()), mk(e), mk(i)] }
@@ -1332,11 +1336,23 @@ fn generate(mode: Mode, tier: &str, seed: u64, orc: &Oracle, ranks: &HashMap<Str
         vec![("d", "lib")],
         vec![("s4", "a.sol"), ("s4", "lib/b.sol")],
         vec![("s0", "x/y/z/a.sol"), ("s2", "x/y/b.sol"), ("s3", "x/c.sol"), ("s1", "k.sol")],
+        // same name, same byte size, different findings
+        vec![("s10", "x/Vault.sol"), ("s11", "y/Vault.sol")],
+        vec![("s11", "x/Vault.sol"), ("s10", "y/Vault.sol")],
+        vec![("s10", "Vault.sol"), ("s11", "lib/Vault.sol"), ("s10", "lib/x/Vault.sol")],
     ] {
         trees.push((t(&spec), None, "hand-written"));
     }
     for tree in deep_family(mode, tier, ranks) {
         trees.push((tree, None, "deep-chain"));
+    }
+    if mode == Mode::C03 {
+        // every corner-case ELIGIBLE name with sources that have findings in all three categories, at the top and nested
+        for n in CORNER_ELIGIBLE {
+            let sub = format!("lib/{}", n);
+            trees.push((t(&[("s1", n), ("s2", sub.as_str()), ("s0", "k.sol")]), None, "corner-eligible-names"));
+            trees.push((t(&[("s5", n), ("s3", sub.as_str())]), None, "corner-eligible-names"));
+        }
     }
     if mode == Mode::C16 {
         // every name of the list x every kind of content, alone, inside a sub-directory, and next to other files
@@ -1550,6 +1566,19 @@ fn run_case_c16(case: &Case, orc: &Oracle) -> CaseOut {
     if let Err(e) = build_and_observe(&stripped, &sc_strip) {
         o.harness_error = Some(e);
         return o;
+    }
+    // ineligible entries of another kind: DANGLING symbolic links with ineligible names, at the top and inside every first-level
+    // directory of the full tree (added after the listing was observed; the stripped tree has none). Like any other
+    // ineligible file they must be inert: no influence on the result, and they cannot make the run fail.
+    #[cfg(unix)]
+    {
+        let _ = std::os::unix::fs::symlink("no-such-target", sc_full.path().join("dangling-link.md"));
+        let _ = std::os::unix::fs::symlink("no-such-target.t.sol", sc_full.path().join("dangling.t.sol"));
+        for n in &nodes {
+            if n.kind == Kind::Dir {
+                let _ = std::os::unix::fs::symlink("../no-such-target", sc_full.path().join(&n.name).join("NOTES.md"));
+            }
+        }
     }
     let sig = signature(&nodes);
     o.order_realised = case.desired.as_ref().map(|d| *d == sig);
